@@ -271,7 +271,9 @@ undef-field undef-field-if undef-field-set undef-obj-set nil-deref nil-deref-if 
 nil-method index-read index-read-if index-read-return index-write index-empty index-var index-neg badkey-kind badkey-kind-set
 mapkey-undef index-str index-nonmap argcount argcount-more argkind argkind-meth store-kind store-kind-bool store-value store-scalar
 panic-func panic-func-if panic-func-arg panic-func-return panic-method panic-conc nil-func break-outside continue-outside
-unbounded-for unbounded-nested range-noniter range-int""".split()
+unbounded-for unbounded-nested range-noniter range-int unbounded-continue unbounded-continue-if index-write-conc
+index-read-conc store-kind-conc argcount-conc argkind-conc nil-deref-conc nil-func-conc undef-func-conc undef-method-conc
+panic-method-conc panic-three-conc""".split()
 
 
 @prop("C09")
